@@ -1,0 +1,190 @@
+//go:build verif
+
+// verifprobe exposes pure helper functions of shoot's internal packages to the
+// verification harness over a line protocol. It is only built with -tags verif.
+//
+// stdin : one call per line:  <function> TAB <arg> TAB <arg> ...   (args are Go-quoted strings)
+// stdout: one line per call:  a JSON array with the results (or {"panic": "..."}).
+//
+// For matchType/mayMisConv the two arguments are Go type expressions; they are
+// type-checked in a tiny package that declares a fixed palette of named types
+// (see palette below) and imports "time".
+package main
+
+import (
+	"bufio"
+	"encoding/json"
+	"fmt"
+	"go/ast"
+	"go/importer"
+	"go/parser"
+	"go/token"
+	"go/types"
+	"os"
+	"strconv"
+	"strings"
+
+	"github.com/lopolopen/shoot/internal/constructor"
+	"github.com/lopolopen/shoot/internal/mapper"
+	"github.com/lopolopen/shoot/internal/restclient"
+	"github.com/lopolopen/shoot/internal/shoot"
+	"github.com/lopolopen/shoot/internal/transfer"
+)
+
+const palette = `package palette
+
+import "time"
+
+type MyInt int
+type MyInt8 int8
+type MyInt32 int32
+type MyInt64 int64
+type MyUint8 uint8
+type MyString string
+type MyBool bool
+type MyFloat float64
+type St struct{ A int }
+type St2 struct{ A int }
+type Dur = time.Duration
+type Iface interface{ M() }
+`
+
+func typeOf(expr string) (types.Type, error) {
+	fset := token.NewFileSet()
+	src := palette + "\nvar _x " + expr + "\n"
+	f, err := parser.ParseFile(fset, "palette.go", src, 0)
+	if err != nil {
+		return nil, err
+	}
+	conf := types.Config{Importer: importer.Default()}
+	info := &types.Info{Defs: map[*ast.Ident]types.Object{}}
+	_, err = conf.Check("palette", fset, []*ast.File{f}, info)
+	if err != nil {
+		return nil, err
+	}
+	for id, obj := range info.Defs {
+		if id.Name == "_x" && obj != nil {
+			return obj.Type(), nil
+		}
+	}
+	return nil, fmt.Errorf("no type")
+}
+
+func call(fn string, a []string) (res []any) {
+	defer func() {
+		if r := recover(); r != nil {
+			res = []any{map[string]string{"panic": fmt.Sprint(r)}}
+		}
+	}()
+	arg := func(i int) string {
+		if i < len(a) {
+			return a[i]
+		}
+		return ""
+	}
+	switch fn {
+	case "ToPascalCase":
+		return []any{transfer.ToPascalCase(arg(0))}
+	case "ToCamelCase":
+		return []any{transfer.ToCamelCase(arg(0))}
+	case "ToCamelCaseGO":
+		return []any{transfer.ToCamelCaseGO(arg(0))}
+	case "FirstLowerLetter":
+		return []any{transfer.FirstLowerLetter(arg(0))}
+	case "smartMatch":
+		return []any{mapper.VerifSmartMatch(arg(0), arg(1))}
+	case "isWriteMethod":
+		return []any{mapper.VerifIsWriteMethod(arg(0), arg(1))}
+	case "isReadMethod":
+		return []any{mapper.VerifIsReadMethod(arg(0), arg(1))}
+	case "getMapTag":
+		return []any{mapper.VerifGetMapTag(arg(0))}
+	case "matchType", "mayMisConv":
+		t1, err := typeOf(arg(0))
+		if err != nil {
+			return []any{map[string]string{"error": err.Error()}}
+		}
+		t2, err := typeOf(arg(1))
+		if err != nil {
+			return []any{map[string]string{"error": err.Error()}}
+		}
+		if fn == "mayMisConv" {
+			return []any{mapper.VerifMayMisConv(t1, t2)}
+		}
+		same, conv := mapper.VerifMatchType(t1, t2)
+		return []any{same, conv, types.Identical(t1, t2), types.ConvertibleTo(t1, t2), types.AssignableTo(t1, t2)}
+	case "parseGetSetComment":
+		g, s := constructor.VerifParseGetSetComment(arg(0))
+		return []any{g, s}
+	case "parseNewComment":
+		return []any{constructor.VerifParseNewComment(arg(0))}
+	case "parseDefComment":
+		v, ok := constructor.VerifParseDefComment(arg(0))
+		return []any{v, ok}
+	case "parseJSONTag":
+		return []any{constructor.VerifParseJSONTag(arg(0))}
+	case "parseNewTag":
+		return []any{constructor.VerifParseNewTag(arg(0))}
+	case "parseGetterSetterDoc":
+		g, s := constructor.VerifParseGetterSetterDoc(arg(0))
+		return []any{g, s}
+	case "parsePath":
+		m, p, ps, ok := restclient.VerifParsePath(arg(0))
+		return []any{m, p, ps, ok}
+	case "parseKV":
+		return []any{restclient.VerifParseKV(arg(0))}
+	case "parseAlias":
+		return []any{restclient.VerifParseAlias(arg(0))}
+	case "parseHeaders":
+		return []any{restclient.VerifParseHeaders(arg(0))}
+	case "parseFieldAlias":
+		return []any{restclient.VerifParseFieldAlias(arg(0))}
+	case "findCmdLine":
+		return []any{shoot.VerifFindCmdLine(arg(0), arg(1))}
+	case "FixPath":
+		return []any{shoot.FixPath(arg(0))}
+	case "isAllInOneFile":
+		b, err := shoot.VerifIsAllInOneFile(arg(0))
+		return []any{b, fmt.Sprint(err)}
+	case "isGeneratedBy":
+		b, err := shoot.VerifIsGeneratedBy(arg(0), arg(1))
+		return []any{b, fmt.Sprint(err)}
+	case "firstLine":
+		l, err := shoot.VerifFirstLine(arg(0))
+		return []any{l, fmt.Sprint(err)}
+	}
+	return []any{map[string]string{"error": "unknown function " + fn}}
+}
+
+func main() {
+	in := bufio.NewScanner(os.Stdin)
+	in.Buffer(make([]byte, 1<<22), 1<<22)
+	out := bufio.NewWriter(os.Stdout)
+	defer out.Flush()
+	for in.Scan() {
+		line := in.Text()
+		if line == "" {
+			continue
+		}
+		parts := strings.Split(line, "\t")
+		var args []string
+		bad := false
+		for _, p := range parts[1:] {
+			s, err := strconv.Unquote(p)
+			if err != nil {
+				bad = true
+				break
+			}
+			args = append(args, s)
+		}
+		var res []any
+		if bad {
+			res = []any{map[string]string{"error": "bad quoting"}}
+		} else {
+			res = call(parts[0], args)
+		}
+		b, _ := json.Marshal(res)
+		out.Write(b)
+		out.WriteByte('\n')
+	}
+}
